@@ -293,7 +293,8 @@ def check_generic(ctx, cfg):
             i = np.unravel_index(np.argmax(np.abs(x - direct[name]) / scale), x.shape)
             ctx.fail_input(
                 "%s%s = %.12g but sum of measure*weight*deltaF = %.12g [M=%d N=%d basisM=%s "
-                "basisN=%s scales=%s]" % (name, i, x[i], direct[name][i], M, N,
+                "basisN=%s scales=%s]" % (name, tuple(int(t) for t in i), x[i],
+                                          direct[name][i], M, N,
                                           cfg["basisM"], cfg["basisN"], cfg["scales"]),
                 dict(kind="generic", case=case, name=name),
                 key="moment-not-sum:%s:%s" % (
@@ -337,6 +338,21 @@ def check_generic(ctx, cfg):
     return ok
 
 
+def check_U_orthogonality(ctx, jmax):
+    """the named hypothesis of moments_exact_on_class, by adaptive quadrature:
+    int_{-1}^{1} sqrt(1-x^2) U_j(x) dx = (pi/2) [j = 0]"""
+    from scipy.integrate import quad
+    from scipy.special import eval_chebyu
+    for j in range(jmax + 1):
+        val, _ = quad(lambda t: math.sin(t) ** 2 * eval_chebyu(j, math.cos(t)), 0, math.pi,
+                      limit=400)
+        want = math.pi / 2 if j == 0 else 0.0
+        ctx.count("hyp_U_orthogonality", dict(j=j))
+        if abs(val - want) > 1e-9:
+            ctx.broken.append("hypothesis chebU_weight_integral fails numerically at j=%d "
+                              "(%.3e)" % (j, val - want))
+
+
 def check_gcl(ctx, N_list):
     """hypothesis validation: Polynomial.integrate along pz / pp on sqrt(1-x^2) x^j is exact
     for j <= 2n-3 (n = N resp. N-1), for every admissible j"""
@@ -374,13 +390,18 @@ Definition s00 := mk_gst 0 0 (fun _ => 0) (fun _ => 0) (fun _ => 0) (fun _ => 0)
 Definition s1 := fold_left gstep [%s] (grid_init %s %s s00).
 Definition f (x y : R) : R := %s + %s * x + %s * y + %s * x * y.
 (* the state is peeled with the proved invariant, not by unfolding nested updates *)
-Lemma HT : s_momentumFalloffT s1 = %s. Proof. reflexivity. Qed.
+Lemma HT : s_momentumFalloffT s1 = %s.
+Proof. unfold s1. rewrite history_scale, init_scale. reflexivity. Qed.
 Lemma Hc : cache_current s1.
-Proof. exact (proj1 (jacobians_current_after_any_history _ _ s00 _)). Qed.
-Lemma Epz r : s_pzValues s1 r = pz_of %s r. Proof. rewrite <- HT. apply Hc. Qed.
-Lemma Epp r : s_ppValues s1 r = pp_of %s r. Proof. rewrite <- HT. apply Hc. Qed.
-Lemma Edz r : s_dpzdrz s1 r = dpz_of %s r. Proof. rewrite <- HT. apply Hc. Qed.
-Lemma Edp r : s_dppdrp s1 r = dpp_of %s r. Proof. rewrite <- HT. apply Hc. Qed.
+Proof. apply history_current. apply init_current. Qed.
+Lemma Epz r : s_pzValues s1 r = pz_of %s r.
+Proof. rewrite <- HT. exact (proj1 (Hc r)). Qed.
+Lemma Epp r : s_ppValues s1 r = pp_of %s r.
+Proof. rewrite <- HT. exact (proj1 (proj2 (Hc r))). Qed.
+Lemma Edz r : s_dpzdrz s1 r = dpz_of %s r.
+Proof. rewrite <- HT. exact (proj1 (proj2 (proj2 (Hc r)))). Qed.
+Lemma Edp r : s_dppdrp s1 r = dpp_of %s r.
+Proof. rewrite <- HT. exact (proj2 (proj2 (proj2 (Hc r)))). Qed.
 Ltac ev :=
   unfold gd_moment_Delta00, gd_moment_Delta02, gd_moment_Delta20, gd_moment_Delta11, sumf;
   cbn [sumn rz_lo rz_hi rp_lo rp_hi Nat.sub Nat.add Nat.eqb];
@@ -594,6 +615,7 @@ def run(ctx):
         if k == 0:
             ctx.sample(dict(direct=cfg))
     check_gcl(ctx, [3, 5, 7, 9, 11] if ctx.quick else list(range(3, 27, 2)))
+    check_U_orthogonality(ctx, 20 if ctx.quick else 48)
     # ---- collect the certified evaluations ---------------------------------------------
     for idx, info, pr in procs:
         out, err = pr.communicate()
